@@ -541,6 +541,8 @@ def check_c07(run):
     if not quick:
         mc(run, "upd2.cfg", pool_cfg(3, 1, 2, True, 3, 2, ["Conservation", "OneVersion", "AgreeWhenIdle"]))
     # the model distinguishes: with per-stage re-reads (the code as found) TLC exhibits the torn execution
+    # management calls made at once (lock hand-over rule of Inside(u)): all interleavings of 2 callers and 2 requests
+    mc(run, "updrace.cfg", pool_cfg(2, 1, 2, True, 2 if quick else 3, 2, ["Conservation", "OneVersion", "AgreeWhenIdleU", "NoTornPublish"], spec="MCSpecU"))
     r = mc(run, "updbad.cfg", pool_cfg(2, 1, 2, False, 2, 2, ["OneVersion"]), expect_ok=False)
     if r.ok or r.invariant != "OneVersion":
         raise Infra("vacuity guard: the as-found variant (Pinned = FALSE) should violate OneVersion")
